@@ -5,6 +5,8 @@
 -/
 import QecVerif.Model.DriverC09
 import QecVerif.Model.DriverApp
+import QecVerif.Model.DriverBasic
+import QecVerif.Model.DriverFileEM
 import QecVerif.Model.DriverLattice
 import QecVerif.Model.DriverLatticeColor666
 import QecVerif.Model.DriverLatticeRotatedPlanar
@@ -21,6 +23,8 @@ def dispatch (line : String) : String :=
   | "c01" :: rest => (c01 rest).getD "bad-op"
   | "c04" :: rest => (c04 rest).getD "bad-op"
   | "c05" :: rest => (c05 rest).getD "bad-op"
+  | "c18" :: rest => (c18 rest).getD "bad-op"
+  | "basic" :: rest => (basic rest).getD "bad-op"
   | "planar" :: rest => (planar rest).getD "bad-op"
   | "color666" :: rest => (color666 rest).getD "bad-op"
   | "rotatedplanar" :: rest => (rotatedplanar rest).getD "bad-op"
